@@ -35,3 +35,16 @@ TWINS = [
     T("mbox-attachment-loop-names-swapped", MBOX, "        filename = part.get_filename()\n        content_disposition = str(part.get(\"Content-Disposition\", \"\"))\n", "        content_disposition = str(part.get(\"Content-Disposition\", \"\"))\n        filename = part.get_filename()\n"),
     T("addresses-name-decoded-in-loop-var", MBOX, "            result.append(EmailAddress(name=decode_header_value(name), address=addr))", "            decoded_name = decode_header_value(name)\n            result.append(EmailAddress(name=decoded_name, address=addr))"),
 ]
+
+# --- seeded changes kept under /verif/seeded (sub-agents saw only the property text); each must be reported by the named rule
+import os as _os
+from sa.selftest.harness import P as _P
+_SEEDS = _os.path.join(_os.path.dirname(_os.path.dirname(_os.path.dirname(_os.path.abspath(__file__)))), "seeded")
+SEEDED = [
+    ("C16-1", "C16-SEP"),
+    ("C16-2", "C16-ORDER"),
+    ("C16-3", "C16-ATT"),
+    ("C16-4", "C16-ORDER"),
+    ("C16-5", "C16-ROUTE"),
+]
+MUTANTS = list(MUTANTS) + [_P("seed-" + sid, _os.path.join(_SEEDS, sid, "patch.diff"), rule) for sid, rule in SEEDED if _os.path.exists(_os.path.join(_SEEDS, sid, "patch.diff"))]
